@@ -340,7 +340,8 @@ class Contract(object):
         self.havoc(c, Args(bound))
         res = self.result(c, Args(bound))
         res = st.box(res)
-        st.events.append(('ret', self.name, res))
+        # the 4th component is a snapshot of the returned object's fields at return time (the caller may change them later)
+        st.events.append(('ret', self.name, res, dict(st.heap[res.addr].attrs) if isinstance(res, ObjRef) and res.addr in st.heap else None))
         try:
             post = self.ensures(c, Args(bound), res, Ctx(interp, old_st, fr))
         except (AttributeError, KeyError, TypeError, IndexError):
